@@ -54,7 +54,7 @@ fn any_vm<'a>(cur: &'a [u8]) -> (EbpfVmMbuff<'a>, u8) {
         verifier: pick_verifier(vk),
         jit: if kani::any() { Some(JitMemory { from: any_tag(), use_mbuff: kani::any(), update_data_ptr: kani::any(), _p: core::marker::PhantomData }) } else { None },
         #[cfg(not(feature = "std"))]
-        custom_exec_memory: None,
+        custom_exec_memory: if kani::any() { Some(unsafe { &mut EXEC_MEM[..] }) } else { None },
         #[cfg(feature = "cranelift")]
         cranelift_prog: if kani::any() { Some(CraneliftProgram { from: any_tag() }) } else { None },
         helpers: lib::HashMap::new(),
@@ -64,6 +64,9 @@ fn any_vm<'a>(cur: &'a [u8]) -> (EbpfVmMbuff<'a>, u8) {
     };
     (vm, vk)
 }
+
+#[cfg(not(feature = "std"))]
+static mut EXEC_MEM: [u8; 16] = [0; 16];
 
 fn reset() { unsafe { INTERP_CALLS = 0; INTERP_LAST = None; NATIVE_CALLS = 0; NATIVE_LAST = None; } }
 
@@ -135,12 +138,16 @@ fn mbuff_register() {
     let (mut vm, vk) = any_vm(&p1);
     kani::assume(inv(&vm, vk));
     let before = view(&vm);
-    let k: u32 = kani::any();
+    let (k, k0): (u32, u32) = (kani::any(), kani::any());
     fn h(a: u64, _b: u64, _c: u64, _d: u64, _e: u64) -> u64 { a }
+    fn g(_a: u64, b: u64, _c: u64, _d: u64, _e: u64) -> u64 { b }
+    // any earlier registration, possibly under the same id
+    if kani::any() { vm.helpers.insert(k0, g); }
     assert!(vm.register_helper(k, h).is_ok(), "ensures: register_helper succeeds");
     vm.register_allowed_memory(3..9);
     assert!(view(&vm) == before && inv(&vm, vk), "ensures: registering helpers / ranges does not touch program, verifier or compiled code");
-    assert!(matches!(vm.helpers.last, Some((kk, _)) if kk == k) && vm.helpers.ninsert == 1, "ensures: helper stored under its id");
+    assert!(matches!(vm.helpers.get(&k), Some(f) if *f as usize == h as usize), "ensures: the function registered under an id is the one most recently registered for it");
+    assert!(k0 == k || vm.helpers.n == 0 || vm.helpers.n == 1 || matches!(vm.helpers.get(&k0), Some(f) if *f as usize == g as usize), "ensures: other ids keep their function");
 }
 
 #[kani::proof]
